@@ -29,9 +29,29 @@ def families(tier, seed):
         ("G6-with-input", dict(grid={"tau1": [1.0, 2.0, 4.0]}, param_map={"tau1": node_map["tau1"]},
                                inputs={"p1/op/r_in": [round(0.1 * ((7 * i) % 5) - 0.2, 3) for i in range(10)]})),
     ]
+    # several grid keys addressing DIFFERENT attributes of one edge (weight and delay), and two edges under one key
+    two_attr = {"w12": {"edges": [("p1/op/r", "p2/op/r_in")], "vars": ["weight"]}, "d12": {"edges": [("p1/op/r", "p2/op/r_in")], "vars": ["delay"]}}
+    # (two different node types: with one type, vectorisation merges the delayed and the undelayed source into one vector, which is
+    #  the listed finding KF-C09-undelayed-edge-shares-source-with-delayed and not a grid_search matter)
+    tg = gen.op_li("tg", x="r", ins=("r_in",), tau=3.0, x0=0.1)
+    m7 = gen.model([li, tg], {"p1": dict(ops=["op"]), "p2": dict(ops=["tg"])}, [E("p1/op/r", "p2/tg/r_in", 1.5), E("p2/tg/r", "p1/op/r_in", 0.5)])
+    two_attr = {"w12": {"edges": [("p1/op/r", "p2/tg/r_in")], "vars": ["weight"]}, "d12": {"edges": [("p1/op/r", "p2/tg/r_in")], "vars": ["delay"]}}
+    for vec in (True, False):
+        out.append(dict(tag="G7-two-keys-on-one-edge", features=dict(vec_flag=vec), kind="grid", model=m7, outputs={"a": "p1/op/r", "b": "p2/tg/r"},
+                        vec=vec, grid={"w12": [0.5, 2.5, -1.0], "d12": [0.1, 0.2, 0.15]}, param_map=two_attr))     # delays of at least two steps (C09: shorter ones are neglected)
+    both = {"wboth": {"edges": [("p1/op/r", "p2/op/r_in"), ("p2/op/r", "p1/op/r_in")], "vars": ["weight"]}, "tau1": {"nodes": ["p1"], "vars": ["op/tau"]}}
+    scen.append(("G8-two-edges-under-one-key", dict(grid={"wboth": [0.5, 2.5, -1.0], "tau1": [1.0, 2.0, 4.0]}, param_map=both)))
     for tag, kw in scen:
         for vec in (True, False):
             out.append(dict(tag=tag, features=dict(vec_flag=vec), kind="grid", model=m, outputs=outs, vec=vec, **kw))
+    # a circuit whose edges are built from an EdgeTemplate (algebraic edge operator): node parameter and both edge weights swept
+    eop = dict(name="eop", eqs=[["s_out", "alg", ["*", ["var", "gain"], ["call", "tanh", ["var", "pre"]]]]],
+               vars={"s_out": ["output", 0.0], "pre": ["input", 0.0], "gain": ["const", 1.7]})
+    mt = gen.model([li], {"p1": dict(ops=["op"]), "p2": dict(ops=["op"], over={"op/tau": 3.0})},
+                   [dict(E("p1/op/r", "p2/op/r_in", 1.5), tpl="eop"), dict(E("p2/op/r", "p1/op/r_in", 0.5), tpl="eop")], edge_ops=[eop])
+    for vec in (True, False):
+        out.append(dict(tag="G9-edge-template-edges", features=dict(vec_flag=vec, edge_template=True), kind="grid", model=mt, outputs=outs, vec=vec,
+                        grid={"wboth": [0.5, 2.5, -1.0], "tau1": [1.0, 2.0, 4.0]}, param_map=both))
     return out
 
 
@@ -41,7 +61,8 @@ def main():
         chk, "grid_search-vs-individual-runs", families(chk.tier, chk.seed), cases.case_fn, site="C17/grid_search",
         rule="a two-node circuit with distinct per-node parameters; grids over node parameters (one and two targets per key), edge "
              "weights, mixed node+edge, a permuted 2x3 grid, a DataFrame grid with a shuffled index, a template passed as object with "
-             "an edge attribute, an extrinsic input; vectorize on and off; every row of the returned table against the spec trajectory "
+             "an edge attribute, an extrinsic input, two grid keys on different attributes (weight, delay) of one edge, two edges under one "
+             "key, a circuit whose edges are built from an EdgeTemplate; vectorize on and off; every row of the returned table against the spec trajectory "
              "of the circuit with that row's values (rtol 1e-6), labels and table contents; distinct = (scenario, vectorize)",
         sample_of=lambda c: {k: v for k, v in c.items() if k not in ("features", "model")})
     rc = chk.finish(
